@@ -371,6 +371,48 @@ def routing_edges(seed: int, n: int) -> List[List[dict]]:
     return out
 
 
+def no_notice_types(seed: int, n: int) -> List[List[dict]]:
+    """messages that are themselves failure notices or log messages (FAILED_MESSAGE, RTMA_LOG and its five level types), published
+    by a CLIENT, are undeliverable to a stalled / dead subscriber: no further notice is produced for any of them"""
+    out = []
+    for t in (8, 40, 41, 42, 43, 44, 45, 1234):
+        for how in ("stalled", "dead"):
+            b = monitor_setup()
+            names = ["v", "w", "s", "c"]
+            for c, mid in (("v", 21), ("w", 22), ("s", 5)):
+                b += [opn(c), rnd(c), snd(c, con2(mid, 0, c)), rnd("", [c], names)]
+            for c, mid in (("v", 21), ("w", 22)):
+                b += [snd(c, sub(15, mid, t)), rnd("", [c], names)]
+            if how == "dead":
+                b += [{"a": "Die", "c": "v"}]
+                W = names
+            else:
+                W = [x for x in names if x != "v"]
+            b += [snd("s", data(t, 5, 0, 0, 1)), rnd("", ["s"], W)]
+            b += [snd("s", data(1234, 5, 0, 0, 2)), rnd("", ["s"], [x for x in names if x != "v"] if how == "dead" else W)]
+            out.append(b)
+    return out
+
+
+def refused_duplicate_then_timing(seed: int, n: int) -> List[List[dict]]:
+    """a module that announced its pid keeps being reported in TIMING_MESSAGE after ANOTHER socket was refused its id, and after a
+    sibling instance sharing an id (allow_multiple) has left"""
+    out = []
+    for kind in ("refused", "sibling-leaves"):
+        b = [opn("a"), opn("m"), rnd("a"), rnd("m"), snd("a", con2(20, 1 if kind != "refused" else 0, "a", pid=4242)), snd("m", con(2)), rnd("", ["a", "m"], ["a", "m"])]
+        b += [snd("m", sub(15, 2, 80)), rnd("", ["m"], ["a", "m"])]
+        b += [snd("a", {"k": "f", "t": 26, "src": 20, "dst": 0, "dhost": 0, "p": {"k": "rdy", "pid": 4242}}), rnd("", ["a"], ["a", "m"])]
+        b += [{"a": "Tick", "n": 3}, rnd("", [], [])]
+        b += [opn("x"), rnd("x"), snd("x", con2(20, 1 if kind != "refused" else 0, "x2", pid=777)), rnd("", ["x"], ["a", "m", "x"])]
+        if kind == "sibling-leaves":
+            b += [snd("x", sig(14, 20)), rnd("", ["x"], ["a", "m", "x"])]
+        b += [snd("a", data(1234, 20, 0, 0, 1)), rnd("", ["a"], ["a", "m"])]
+        b += [{"a": "Tick", "n": 3}, rnd("", [], [])]
+        b += [{"a": "Tick", "n": 3}, rnd("", [], [])]
+        out.append(b)
+    return out
+
+
 def dynamic_double_wrap(seed: int, n: int) -> List[List[dict]]:
     """the dynamic-id counter wraps twice while two long-lived dynamic modules stay connected, the one with the HIGHER id being the
     OLDER connection: every id handed out is one that no live module holds"""
